@@ -110,6 +110,15 @@ def run_iso(params, ch):
                 mid = getattr(d, api)('c', decode=decode)
                 if api == 'streaming_shell':
                     mid = list(mid)
+                if params.get('rounds') == 2:
+                    # the suspended stream advances by one item (emptying what was parked for it), then another command runs
+                    second = next(g)
+                    mid2 = getattr(d, api)('c', decode=decode)
+                    if api == 'streaming_shell':
+                        mid2 = list(mid2)
+                    if mid2 != mid:
+                        return first, ('second run differs', mid, mid2), [second] + list(g)
+                    return first, mid, [second] + list(g)
                 return first, mid, list(g)
         else:
             async def body(d):
@@ -119,6 +128,15 @@ def run_iso(params, ch):
                     mid = [x async for x in d.streaming_shell('c', decode=decode)]
                 else:
                     mid = await getattr(d, api)('c', decode=decode)
+                if params.get('rounds') == 2:
+                    second = await g.__anext__()
+                    if api == 'streaming_shell':
+                        mid2 = [x async for x in d.streaming_shell('c', decode=decode)]
+                    else:
+                        mid2 = await getattr(d, api)('c', decode=decode)
+                    if mid2 != mid:
+                        return first, ('second run differs', mid, mid2), [second] + [x async for x in g]
+                    return first, mid, [second] + [x async for x in g]
                 return first, mid, [x async for x in g]
         r = s.run(body)
         env = s.env
@@ -268,6 +286,7 @@ def parts(tier):
     out.append(Part('partitions-under-read-fragmentation', pol, run_one, {'partition': None}, what='all WRTE partitions under global bulk_read fragmentation policies (every payload reassembled from several reads)',
                     bound='%d scenarios x all partitions' % len(pol)))
     iso = [{'twin': t, 'api': a, 'decode': d, 'clse': c, 'nother': n, 'family': f} for t in twins for a in apis for d in (True, False) for c in ('after-ack', 'eager') for n in (3, 1) for f in (None, 'mirror')]
+    iso += [{'twin': t, 'api': a, 'decode': False, 'clse': c, 'nother': n, 'family': None, 'rounds': 2} for t in twins for a in ('shell', 'streaming_shell') for c in ('after-ack', 'eager') for n in (2, 3)]
     slow = [{'data': b'0123456789abcdef'[:n], 'chunks': [b'0123456789abcdef'[i:i + 1] for i in range(n)], 'api': a, 'decode': False, 'twin': t, 'clse': c, 'slow': sl}
             for n in (2, 6, 16) for a in ('shell', 'exec_out', 'streaming_shell') for t in ('sync', 'async') for c in ('after-ack', 'eager')
             for sl in ((0.3, 1.0, None), (0.3, 1.0, 30.0), (0.3, 1.0, 6.0), (0.9, 1.0, 60.0), (0.05, 0.1, 5.0))]
